@@ -6,6 +6,50 @@ import os
 HERE = os.path.dirname(os.path.dirname(os.path.abspath(__file__)))
 
 CHECKS = {
+    'C01': dict(
+        engine='rpc-model', category='exploration', design='4/C01',
+        technique='generated RPC programs on the real servicer vs sequential reference model + datastore write monitor',
+        text=('~1400 generated programs per quick run (30k calls, both datastores): after every call the outcome class, the '
+              'response and the complete stored state are compared with the reference model; a failing call must leave the '
+              'stored data unchanged (before/after snapshots); every stored trial write is checked by the lifecycle monitor. '
+              'Evidence lists the (RPC x pre-state x outcome) cells visited and transitions seen.'),
+        note=('Trusted: vv/model.py (transcription of the documented API, permissive where the docs leave a choice), '
+              'abstraction of protos (timestamps by presence). In-process servicer only; wire behaviour is C08.')),
+    'C02': dict(
+        engine='rpc-model', category='exploration', design='4/C02',
+        technique='suggest-response monitor (reference model following observed choices) under a delivery-shaping harness algorithm',
+        text=('Programs of suggest/complete/request/add/delete/stop by 3 workers with the harness algorithm delivering N+delta '
+              '(delta -N..+3): response size, own-ACTIVE-first, pool-before-algorithm, ownership, fresh ids, surplus queued as '
+              'REQUESTED (stored state), operation numbering, algorithm reached iff shortfall.'),
+        note='Trusted: vv/model.py _follow_suggest; harness algorithm plugged in via the documented policy_factory argument.'),
+    'C06': dict(
+        engine='rpc-model', category='fault_enumeration', design='4/C06',
+        technique='fault-injecting algorithm (8 exception types x suggest/early-stop x first/k-th/every; deliveries 0..N+3) + unfinished-operation scan + reach-again probes + client poll cap',
+        text=('~700 fault scenarios per quick run on in-process Pythia (RAM, SQLite) and remote Pythia over gRPC; after each call '
+              'no stored operation may be done=False, failures must be reported, later requests by the same/other worker must '
+              'reach the algorithm again; VizierClient.get_suggestions must terminate within 20 polls.'),
+        note='Trusted: harness policy/controller, model. early_stop_recycle_period=0 so a later check may reach the algorithm.'),
+    'C07': dict(
+        engine='rpc-model', category='exploration', design='4/C07',
+        technique='three-way differential (RAM / sqlite memory / sqlite file) of outcome classes, responses and ordered stored state after every call',
+        text=('Each program runs on three real servicers; pairwise comparison after every call plus GetOperation comparison at '
+              'the end; the RAM run is also checked against the reference model. Workload aimed at delete+re-create, failed '
+              'metadata updates, early stopping, unknown owners.'),
+        note='Malformed resource names may be INVALID on one backend and NOT_FOUND on another (counted as the same rejection).'),
+    'C10': dict(
+        engine='rpc-model', category='exploration', design='4/C10',
+        technique='last-writer-wins map model compared after every update (service, clients, in-RAM supporter) + icontract codec post-condition + exhaustive collision check',
+        text=('Namespace codec: all 585 tuples of length <=3 over an adversarial alphabet (exhaustive) + random; store: ~750 '
+              'update sequences per quick run with read-back of complete (ns,key)->value maps after each update, failed updates '
+              'must change nothing.'),
+        note='Trusted: flatten() of vz.Metadata via all_items(); icontract wrapper records and never aborts.'),
+    'C12': dict(
+        engine='rpc-model', category='exploration', design='4/C12',
+        technique='recording designer behind the real policy wrappers + exactly-once ledger keyed by trial identity',
+        text=('Every Designer.update() is logged with the ground-truth trial table of that instant; ledger checks active==ACTIVE '
+              'now, completed==not-yet-delivered completed trials, no duplicates, across service (state via metadata, rebuilt '
+              'per request), DesignerPolicy and a policy kept alive over InRamPolicySupporter; deletions and state corruption injected.'),
+        note='Trusted: WriteMonitor.created_serial as trial identity; ledger resets when the policy could not restore state.'),
     'C18': dict(
         engine='value-gen', category='exploration', design='4/C18',
         technique='runtime monitors on every warp()/unwarp() call of the real warpers over generated label arrays',
